@@ -51,51 +51,60 @@ def isZeroLength (a : EllArc α) : Bool := a.end_ == a.start
 def rot (M : ArcMath α) (s : Aff α) (angle : α) : Aff α :=
   s.rotateCS (M.cos angle) (M.sin angle) 0 0
 
+/-- the quantity `correct_out_of_range_radii` compares with 1:
+    x'²/rx² + y'²/ry² for the half chord (x', y') rotated into the ellipse's axes -/
+def radiiScale (M : ArcMath α) (a : EllArc α) : α :=
+  let mid : Pt α := ⟨(a.start.x - a.end_.x) * M.half, (a.start.y - a.end_.y) * M.half⟩
+  let tm := (rot M Aff.id (-(M.rad a.rotation))).mapVec mid
+  tm.x * tm.x / (a.rx * a.rx) + tm.y * tm.y / (a.ry * a.ry)
+
 /-- `correct_out_of_range_radii`; ZeroDivisionError when a squared radius underflows to 0 -/
 def correctRadii (M : ArcMath α) (a : EllArc α) : Except PyErr (EllArc α) :=
   if a.isStraightLine || a.isZeroLength then .ok a else
-  let mid : Pt α := ⟨(a.start.x - a.end_.x) * M.half, (a.start.y - a.end_.y) * M.half⟩
-  let angle := M.rad a.rotation
-  let pt := rot M Aff.id (-angle)
-  let tm := pt.mapVec mid
-  let sqrx := a.rx * a.rx
-  let sqry := a.ry * a.ry
-  let sqx := tm.x * tm.x
-  let sqy := tm.y * tm.y
-  if sqrx == 0 || sqry == 0 then .error .zeroDivisionError else
-  let scale := sqx / sqrx + sqy / sqry
-  if 1 < scale then
-    .ok { a with rx := a.rx * M.sqrt scale, ry := a.ry * M.sqrt scale }
+  if a.rx * a.rx == 0 || a.ry * a.ry == 0 then .error .zeroDivisionError else
+  if 1 < radiiScale M a then
+    .ok { a with rx := a.rx * M.sqrt (radiiScale M a), ry := a.ry * M.sqrt (radiiScale M a) }
   else .ok a
+
+/-- the transform into the frame where the ellipse is the unit circle:
+    `identity.scale(1/rx, 1/ry).rotate(-angle)` -/
+def unitFrame (M : ArcMath α) (a : EllArc α) : Aff α :=
+  rot M ((Aff.id : Aff α).scale ((1 : α) / a.rx) ((1 : α) / a.ry)) (-(M.rad a.rotation))
+
+/-- squared distance of the two end points in the unit frame -/
+def unitDistSq (p1 p2 : Pt α) : α :=
+  (p2.x - p1.x) * (p2.x - p1.x) + (p2.y - p1.y) * (p2.y - p1.y)
+
+/-- `max(1/d − 0.25, 0.0)` then `sqrt`, sign flipped when `sweep == large` -/
+def scaleFactor (M : ArcMath α) (a : EllArc α) (d : α) : α :=
+  let v := (1 : α) / d - M.quarter
+  let sfs := if v < 0 then (0 : α) else v
+  if a.sweep == a.large then -(M.sqrt sfs) else M.sqrt sfs
+
+/-- the centre in the unit frame:
+    `point1 + (point2 - point1) * 0.5 + Vector(-delta.y, delta.x)` with `delta *= scale_factor` -/
+def unitCenter (M : ArcMath α) (a : EllArc α) (p1 p2 : Pt α) : Pt α :=
+  let sf := scaleFactor M a (unitDistSq p1 p2)
+  ⟨p1.x + (p2.x - p1.x) * M.half + (-((p2.y - p1.y) * sf)),
+   p1.y + (p2.y - p1.y) * M.half + (p2.x - p1.x) * sf⟩
 
 /-- `end_to_center_parametrization` -/
 def endToCenter (M : ArcMath α) (eps : α) (a : EllArc α) : Except PyErr (CenterParam α) :=
   if a.isStraightLine || a.isZeroLength then .error .valueError else
   if a.rx == 0 || a.ry == 0 then .error .zeroDivisionError else
-  let angle := M.rad a.rotation
-  let pt := rot M ((Aff.id : Aff α).scale ((1 : α) / a.rx) ((1 : α) / a.ry)) (-angle)
+  let pt := unitFrame M a
   let p1 := pt.mapPt a.start
   let p2 := pt.mapPt a.end_
-  let dx := p2.x - p1.x
-  let dy := p2.y - p1.y
-  let d := dx * dx + dy * dy
-  if d == 0 then .error .zeroDivisionError else
-  let v := (1 : α) / d - M.quarter
-  let sfs := if v < 0 then (0 : α) else v          -- max(v, 0.0)
-  let sf0 := M.sqrt sfs
-  let sf := if a.sweep == a.large then -sf0 else sf0
-  let ddx := dx * sf
-  let ddy := dy * sf
-  -- point1 + (point2 - point1) * 0.5 + Vector(-delta.y, delta.x)
-  let cx := p1.x + (p2.x - p1.x) * M.half + (-ddy)
-  let cy := p1.y + (p2.y - p1.y) * M.half + ddx
-  let th1 := M.atan2 (p1.y - cy) (p1.x - cx)
-  let th2 := M.atan2 (p2.y - cy) (p2.x - cx)
+  if unitDistSq p1 p2 == 0 then .error .zeroDivisionError else
+  let c := unitCenter M a p1 p2
+  let th1 := M.atan2 (p1.y - c.y) (p1.x - c.x)
+  let th2 := M.atan2 (p2.y - c.y) (p2.x - c.x)
   let ta := th2 - th1
   let ta := if ta < 0 && a.sweep then ta + M.twoPi
             else if 0 < ta && !a.sweep then ta - M.twoPi else ta
-  let c := (pt.inverse eps).mapPt ⟨cx, cy⟩
-  .ok ⟨th1, ta, c⟩
+  -- identity.rotate(angle).scale(rx, ry): the explicit inverse of the unit frame
+  let c' := ((rot M (Aff.id : Aff α) (M.rad a.rotation)).scale a.rx a.ry).mapPt c
+  .ok ⟨th1, ta, c'⟩
 
 end EllArc
 
@@ -105,30 +114,38 @@ structure Cubic (α : Type) where
   c2 : Pt α
   p : Pt α
 
+/-- one segment of `_arc_to_cubic` (index `i` of `n`), or `none` when `t` is not finite -/
+def arcSegment (M : ArcMath α) (a : EllArc α) (cp : CenterParam α) (pt : Aff α) (n i : Nat) :
+    Option (Cubic α) :=
+  let st := cp.theta1 + M.ofNat i * cp.thetaArc / M.ofNat n
+  let en := cp.theta1 + M.ofNat (i + 1) * cp.thetaArc / M.ofNat n
+  let t := M.fourThirds * M.tan (M.quarter * (en - st))
+  if !M.isFinite t then none else
+  let ss := M.sin st
+  let cs := M.cos st
+  let se := M.sin en
+  let ce := M.cos en
+  let p1 : Pt α := ⟨cs - t * ss, ss + t * cs⟩
+  let e : Pt α := ⟨ce, se⟩
+  let p2 : Pt α := ⟨ce + t * se, se + (-t) * ce⟩
+  some ⟨pt.mapPt p1, pt.mapPt p2, if i == n - 1 then a.end_ else pt.mapPt e⟩
+
+def arcSegGo (M : ArcMath α) (a : EllArc α) (cp : CenterParam α) (pt : Aff α) (n : Nat) :
+    (i : Nat) → (fuel : Nat) → List (Cubic α)
+  | _, 0 => []
+  | i, fuel + 1 =>
+    if i ≥ n then [] else
+    match arcSegment M a cp pt n i with
+    | none => []
+    | some c => c :: arcSegGo M a cp pt n (i + 1) fuel
+
+/-- `identity.translate(cx, cy).rotate(radians(rotation)).scale(rx, ry)` -/
+def ellipseFrame (M : ArcMath α) (a : EllArc α) (cp : CenterParam α) : Aff α :=
+  (EllArc.rot M ((Aff.id : Aff α).translate cp.center.x cp.center.y) (M.rad a.rotation)).scale a.rx a.ry
+
 /-- the segments of `_arc_to_cubic` for the already corrected arc and its parametrisation -/
 def arcSegments (M : ArcMath α) (a : EllArc α) (cp : CenterParam α) (n : Nat) : List (Cubic α) :=
-  let pt := (EllArc.rot M ((Aff.id : Aff α).translate cp.center.x cp.center.y) (M.rad a.rotation)).scale a.rx a.ry
-  let rec go (i : Nat) (fuel : Nat) : List (Cubic α) :=
-    match fuel with
-    | 0 => []
-    | fuel + 1 =>
-      if i ≥ n then [] else
-      let st := cp.theta1 + M.ofNat i * cp.thetaArc / M.ofNat n
-      let en := cp.theta1 + M.ofNat (i + 1) * cp.thetaArc / M.ofNat n
-      let t := M.fourThirds * M.tan (M.quarter * (en - st))
-      if !M.isFinite t then [] else
-      let ss := M.sin st
-      let cs := M.cos st
-      let se := M.sin en
-      let ce := M.cos en
-      let p1 : Pt α := ⟨cs - t * ss, ss + t * cs⟩
-      let e : Pt α := ⟨ce, se⟩
-      let p2 : Pt α := ⟨ce + t * se, se + (-t) * ce⟩
-      let q1 := pt.mapPt p1
-      let q2 := pt.mapPt p2
-      let qe := if i == n - 1 then a.end_ else pt.mapPt e
-      ⟨q1, q2, qe⟩ :: go (i + 1) fuel
-  go 0 n
+  arcSegGo M a cp (ellipseFrame M a cp) n 0 n
 
 /-- result of `arc_to_cubic`: nothing, a straight line to the end point, or cubics -/
 inductive ArcOut (α : Type)
@@ -137,7 +154,9 @@ inductive ArcOut (α : Type)
   | cubics (l : List (Cubic α))
 
 /-- `arc_to_cubic(start, rx, ry, rotation, large, sweep, end)` -/
-def arcToCubic (M : ArcMath α) (eps : α) (a : EllArc α) : Except PyErr (ArcOut α) :=
+def arcToCubic (M : ArcMath α) (eps : α) (a0 : EllArc α) : Except PyErr (ArcOut α) :=
+  -- negative radii are used as their absolute value (`fabs`)
+  let a : EllArc α := { a0 with rx := absv a0.rx, ry := absv a0.ry }
   if a.isZeroLength then .ok .empty
   else if a.isStraightLine then .ok (.line a.end_)
   else do
